@@ -763,3 +763,49 @@ F('c17-candidates-generator', {'C17': ['R17.4', 'ANALYSIS-ERROR']}, [(FILE_TRASH
 S('c17-allow-list-set', ['C17'], [(PERSISTER,
   "                elif e.errno not in (errno.EEXIST, None):", "                elif e.errno not in {errno.EEXIST, None}:")],
   'allow-list as a set')
+
+# ------------------------------------------------------------------ C19
+TFILES = 'trashcli/restore/trashed_files.py'
+F('fix9-reverted', {'C19': ['R19.2']}, [(SORTM,
+  "    date_rankking = lambda x: (x.deletion_date is None, x.deletion_date)", "    date_rankking = lambda x: x.deletion_date")],
+  'raw date as sort key again')
+F('fix10-list-reverted', {'C19': ['R19.1']}, [(LISTACT,
+  "        except (IOError, UnicodeError) as e:", "        except IOError as e:")], 'list handles only IOError')
+F('fix10-rm-reverted', {'C19': ['R19.1']}, [(RMLIST,
+  "            try:\n                trashinfo = self.file_content_reader.contents_of(trashinfo_path)\n                path = parse_path(trashinfo)\n            except (IOError, OSError, ValueError):",
+  "            trashinfo = self.file_content_reader.contents_of(trashinfo_path)\n            try:\n                path = parse_path(trashinfo)\n            except ParseError:")],
+  'rm reads outside the try')
+F('fix10-empty-reverted', {'C19': ['R19.1']}, [(DAD,
+  "            try:\n                contents = self.reader.contents_of(trashinfo_path)\n            except (IOError, OSError, ValueError):\n                return False\n",
+  "            contents = self.reader.contents_of(trashinfo_path)\n")], 'empty DAYS reads unguarded')
+F('fix13-reverted', {'C19': ['R19.1']}, [('trashcli/list/extractors.py',
+  "                return '?'", "                raise")], '--size re-raises for a missing payload')
+F('c19-restore-valueerror-removed', {'C19': ['R19.1']}, [(TFILES,
+  "                except ValueError as e:\n                    yield NonParsableTrashInfo(info_file.path, e)\n", "")],
+  'restore no longer handles unparsable entries')
+S('c19-restore-extra-outer-handler', ['C19'], [(TFILES,
+  """        for event in self.all_trashed_files_internal(trash_dir_from_cli):""",
+  """        for event in self._guarded(trash_dir_from_cli):""" ), (TFILES,
+  """    def all_trashed_files_internal(self,""",
+  """    def _guarded(self, trash_dir_from_cli):
+        try:
+            for event in self.all_trashed_files_internal(trash_dir_from_cli):
+                yield event
+        except ValueError:
+            pass
+
+    def all_trashed_files_internal(self,""")],
+  'harmless wrapper (errors still handled per entry inside)')
+F('c19-list-parse-error-unhandled', {'C19': ['R19.1']}, [(LISTACT,
+  "            except ParseError:\n                yield Error(self.print_parse_path_error(trashinfo_path))\n            else:",
+  "            except KeyError:\n                yield Error(self.print_parse_path_error(trashinfo_path))\n            else:")],
+  'missing Path aborts the listing')
+F('c19-min-date', {'C19': ['R19.2']}, [('trashcli/restore/handler.py',
+  "            for i, trashed_file in enumerate(trashed_files):",
+  "            oldest = min(trashed_files, key=lambda t: t.deletion_date)\n            self.output.println('oldest: %s' % oldest.original_location)\n            for i, trashed_file in enumerate(trashed_files):")],
+  'min() over possibly-None dates')
+S('c19-handler-widened', ['C19'], [(LISTACT,
+  "        except (IOError, UnicodeError) as e:", "        except Exception as e:")], 'handler widened')
+S('c19-total-key-variant', ['C19'], [(SORTM,
+  "    date_rankking = lambda x: (x.deletion_date is None, x.deletion_date)",
+  "    import datetime\n    date_rankking = lambda x: x.deletion_date or datetime.datetime.max")], 'total key through a default')
